@@ -89,6 +89,7 @@ class Analyzer:
         for rnd in range(12):
             before = {k: set(v) for k, v in self.comps.items()}
             self.edges, self.kinds, self.sites = set(), {}, {}
+            self.alias_links, self.mutated = [], set()
             for m in self.ix.mods.values():
                 ModuleWalker(self, m).run()
             for f in self.ix.funcs:
@@ -99,6 +100,7 @@ class Analyzer:
         else:
             raise TranslateError("access-path components did not stabilise")
         self.rounds = rnd + 1
+        self._alias_pass()
         self._mark_sources()
 
     # ---- which classes are drivers (repr/str of these are sinks)
@@ -285,6 +287,38 @@ class Analyzer:
                 and isinstance(l.args[0], ast.Name) and l.args[0].id in getattr(f, "_events", ())
                 and isinstance(e.comparators[0], ast.Constant))
 
+    # ---- mutation through aliases: a container that is mutated in place (x[k] = v, x.setdefault/update/append/…)
+    #      is the same object as whatever it was assigned from (name, attribute, element, .get() result, argument,
+    #      returned value): what flows into it also flows into those, transitively
+    @staticmethod
+    def ident(node):
+        return node.split("[", 1)[0] if node.startswith("v:") else node
+
+    def _alias_pass(self):
+        members = defaultdict(set)
+        for a, b in self.edges:
+            members[self.ident(a)].add(a)
+            members[self.ident(b)].add(b)
+        back = defaultdict(set)
+        for srcs, dsts in self.alias_links:
+            for d in dsts:
+                back[d] |= {x for x in srcs if not x.startswith(("k:", "s:"))}
+        todo = []
+        for m in self.mutated:
+            todo.extend(members.get(self.ident(m), {m}))
+        seen = set()
+        self.alias_edges = 0
+        while todo:
+            n = todo.pop()
+            if n in seen:
+                continue
+            seen.add(n)
+            for s_ in back.get(n, set()) | back.get(self.ident(n), set()):
+                if s_ != n and (n, s_) not in self.edges:
+                    self.edges.add((n, s_))
+                    self.alias_edges += 1
+                todo.append(s_)
+
     # ---- sources
     def _mark_sources(self):
         nodes = set()
@@ -351,6 +385,7 @@ class Walker:
         self.cut = None
         self.collectors = []    # stacks of node sets: arguments of external calls inside try bodies
         self.nsan = 0
+        self.written = None     # when a list: nodes written by the assignment being processed
 
     # ---- helpers
     def san(self, node, why):
@@ -426,14 +461,54 @@ class Walker:
             return s_whole({f"g:{r[1]}:{r[2]}"})
         return {}
 
-    def store_name(self, name, sh):
+    def store_name(self, name, sh, mutate=False):
         g = self.scope_of(name)
         if g is None:
             # module level or `global`
             self.edge(s_flat(sh), f"g:{self.f.mod.rel}:{name}")
+            if self.written is not None:
+                self.written.append(f"g:{self.f.mod.rel}:{name}")
+            if mutate:
+                self.an.mutated.add(f"g:{self.f.mod.rel}:{name}")
             return
         ctx = self.ctx if g is self.f else ""
         self.an.assign_var(g, ctx, name, sh, self.cut)
+        if self.written is not None:
+            self.written.append(self.an.var(g, ctx, name))
+        if mutate:
+            self.an.mutated.add(self.an.var(g, ctx, name))
+
+    ALIAS_CALLS = {"get", "setdefault", "pop", "popitem", "values", "items", "__getitem__"}
+
+    def alias_capable(self, e):
+        """may the value of e be an existing mutable object (rather than a freshly built one)?"""
+        if isinstance(e, (ast.Name, ast.Attribute, ast.Subscript)):
+            return True
+        if isinstance(e, (ast.Await, ast.Starred)):
+            return self.alias_capable(e.value)
+        if isinstance(e, ast.NamedExpr):
+            return self.alias_capable(e.value)
+        if isinstance(e, ast.BoolOp):
+            return any(self.alias_capable(v) for v in e.values)
+        if isinstance(e, ast.IfExp):
+            return self.alias_capable(e.body) or self.alias_capable(e.orelse)
+        if isinstance(e, ast.Call):
+            fn = e.func
+            if isinstance(fn, ast.Attribute):
+                if fn.attr in self.ALIAS_CALLS:
+                    return True
+                cands, _ = self.method_candidates(fn.value, fn.attr)
+                return bool(cands)
+            if isinstance(fn, ast.Name):
+                if self.scope_of(fn.id) is not None:
+                    return True
+                r = self.ix.lookup_global(self.f.mod, fn.id)
+                return bool(r and r[0] == "func")
+        return False
+
+    def link(self, srcs, dsts):
+        if srcs and dsts:
+            self.an.alias_links.append((frozenset(srcs), frozenset(dsts)))
 
     # ---- statements
     def stmts(self, body):
@@ -459,19 +534,41 @@ class Walker:
     def stmt(self, s):
         if isinstance(s, ast.Expr):
             self.shape(s.value)
-        elif isinstance(s, ast.Assign):
+        elif isinstance(s, (ast.Assign, ast.AnnAssign)):
+            if s.value is None:
+                return
             sh = self.shape(s.value)
-            for t in s.targets:
+            old, self.written = self.written, []
+            for t in (s.targets if isinstance(s, ast.Assign) else [s.target]):
                 self.assign(t, sh)
-        elif isinstance(s, ast.AnnAssign):
-            if s.value is not None:
-                self.assign(s.target, self.shape(s.value))
+            wr, self.written = self.written, old
+            if self.alias_capable(s.value):
+                tg = (s.targets if isinstance(s, ast.Assign) else [s.target])
+                if len(tg) == 1 and isinstance(tg[0], ast.Name) and self.scope_of(tg[0].id) is not None:
+                    g_ = self.scope_of(tg[0].id)
+                    for p_, ns in sh.items():
+                        self.link(ns, [self.an.var(g_, self.ctx if g_ is self.f else "", tg[0].id, p_)])
+                else:
+                    self.link(s_flat(sh), wr)
         elif isinstance(s, ast.AugAssign):
             cur = self.shape(_as_load(s.target))
+            # `x += …` mutates x in place only when x is a list (str / bytes / int are rebound): recognised by a
+            # list-valued right hand side
+            if isinstance(s.value, (ast.List, ast.ListComp)):
+                if isinstance(s.target, ast.Name) and self.scope_of(s.target.id) is not None:
+                    g_ = self.scope_of(s.target.id)
+                    self.an.mutated.add(self.an.var(g_, self.ctx if g_ is self.f else "", s.target.id))
+                elif isinstance(s.target, ast.Attribute):
+                    self.an.mutated.add(f"a:{s.target.attr}")
             self.assign(s.target, {(): s_flat(cur) | s_flat(self.shape(s.value))} if not isinstance(s.op, ast.Add)
                         else s_join(cur, self.shape(s.value)))
         elif isinstance(s, (ast.For, ast.AsyncFor)):
-            self.assign(s.target, s_any(self.shape(s.iter)))
+            sh = s_any(self.shape(s.iter))
+            old, self.written = self.written, []
+            self.assign(s.target, sh)
+            wr, self.written = self.written, old
+            if self.alias_capable(s.iter):
+                self.link(s_flat(sh), wr)
             self.stmts(s.body)
             self.stmts(s.orelse)
         elif isinstance(s, ast.While):
@@ -505,6 +602,9 @@ class Walker:
             if s.value is not None:
                 sh = self.shape(s.value)
                 self.an.assign_var(self.f, self.ctx, "<return>", sh, self.cut)
+                if self.alias_capable(s.value):
+                    for p_, ns in sh.items():
+                        self.link(ns, [self.an.var(self.f, self.ctx, "<return>", p_)])
                 if self.f.name in ("__repr__", "__str__") and self.f.cls is not None and self.f.parent is None:
                     kind = "repr" if self.f.cls in self.an.driver_classes else "arepr"
                     self.sink(kind, s, s_flat(sh), label=f"{self.f.cls.name}.{self.f.name}")
@@ -560,22 +660,34 @@ class Walker:
             if not isinstance(t.slice, ast.Constant):
                 self.shape(t.slice)
             if isinstance(t.value, ast.Name):
-                self.store_name(t.value.id, s_wrap(sh, key))
+                self.store_name(t.value.id, s_wrap(sh, key), mutate=True)
             elif isinstance(t.value, ast.Attribute):
                 self.shape(t.value.value)
-                self.store_attr(t.value.attr, sh)
+                self.store_attr(t.value.attr, sh, mutate=True)
             else:
+                # x.y[k][j] = v, f()[k] = v, …: the innermost name / attribute is what gets mutated
+                base = t.value
+                while isinstance(base, ast.Subscript):
+                    base = base.value
                 self.shape(t.value)
+                if isinstance(base, ast.Name):
+                    self.store_name(base.id, s_wrap(s_whole(s_flat(sh)), "*"), mutate=True)
+                elif isinstance(base, ast.Attribute):
+                    self.store_attr(base.attr, sh, mutate=True)
         elif isinstance(t, ast.Starred):
             self.assign(t.value, sh)
         else:
             raise TranslateError(f"{self.f.fq}: assignment target {t.__class__.__name__} not supported")
 
-    def store_attr(self, attr, sh):
+    def store_attr(self, attr, sh, mutate=False):
         if attr.startswith("__") and not attr.endswith("__") and self.f.cls is not None:
             attr = f"_{self.f.cls.name}{attr}"
         if not self.ix.is_handle_attr(attr):
             self.edge(s_flat(sh), f"a:{attr}")
+            if self.written is not None:
+                self.written.append(f"a:{attr}")
+            if mutate:
+                self.an.mutated.add(f"a:{attr}")
         for setter in self.ix.setters.get(attr, []):
             ps = setter.bind_pos()
             if ps:
@@ -866,33 +978,42 @@ class Walker:
     def bind(self, callee, cctxs, pos_sh, kw_sh, star, dstar, skip_first):
         pos = callee.pos[1:] if (skip_first and callee.pos) else callee.pos
         names = set(callee.pos + callee.kwonly)
+        pos_al, kw_al, star_al, dstar_al = getattr(self, "_arg_alias", None) or ([True] * len(pos_sh), {k: True for k in kw_sh}, True, True)
+
+        def put(cctx, pname, sh, alias):
+            self.an.assign_var(callee, cctx, pname, sh, self.cut)
+            if alias:
+                for p_, ns in sh.items():
+                    self.link(ns, [self.an.var(callee, cctx, pname, p_)])
         for cctx in cctxs:
             bound = set()
             for i, sh in enumerate(pos_sh):
+                al = pos_al[i] if i < len(pos_al) else True
                 if i < len(pos):
-                    self.an.assign_var(callee, cctx, pos[i], sh, self.cut)
+                    put(cctx, pos[i], sh, al)
                     bound.add(pos[i])
                 elif callee.vararg:
-                    self.an.assign_var(callee, cctx, callee.vararg, s_wrap(sh, i - len(pos)), self.cut)
+                    put(cctx, callee.vararg, s_wrap(sh, i - len(pos)), al)
             for k, sh in kw_sh.items():
+                al = kw_al.get(k, True)
                 if k in names:
-                    self.an.assign_var(callee, cctx, k, sh, self.cut)
+                    put(cctx, k, sh, al)
                     bound.add(k)
                 elif callee.kwarg:
-                    self.an.assign_var(callee, cctx, callee.kwarg, s_wrap(sh, k), self.cut)
+                    put(cctx, callee.kwarg, s_wrap(sh, k), al)
             if star is not None:
                 for p in pos[len(pos_sh):]:
-                    self.an.assign_var(callee, cctx, p, s_any(star), self.cut)
+                    put(cctx, p, s_any(star), star_al)
                 if callee.vararg:
-                    self.an.assign_var(callee, cctx, callee.vararg, star, self.cut)
+                    put(cctx, callee.vararg, star, star_al)
             if dstar is not None:
                 for p in callee.pos + callee.kwonly:
                     if p not in bound:
                         sub = s_sub(dstar, p)
                         if sub:
-                            self.an.assign_var(callee, cctx, p, sub, self.cut)
+                            put(cctx, p, sub, dstar_al)
                 if callee.kwarg:
-                    self.an.assign_var(callee, cctx, callee.kwarg, dstar, self.cut)
+                    put(cctx, callee.kwarg, dstar, False)   # **kwargs is a new dict in the callee
 
     def call(self, e, evaluated=False):
         f = self.f
@@ -913,6 +1034,8 @@ class Walker:
         allargs = set()
         for sh in pos_sh + list(kw_sh.values()) + [star or {}, dstar or {}]:
             allargs |= s_flat(sh)
+        self._arg_alias = ([self.alias_capable(a) for a in e.args if not isinstance(a, ast.Starred)],
+                           {k.arg: self.alias_capable(k.value) for k in e.keywords if k.arg is not None}, True, True)
 
         # logging calls are sinks
         if isinstance(fn, ast.Attribute) and fn.attr in LOG_METHODS and _is_logger(fn.value):
@@ -987,11 +1110,19 @@ class Walker:
             if ext:
                 nodes = s_flat(recv_sh) | allargs
                 if name in MUTATORS and isinstance(fn.value, ast.Name) and self.scope_of(fn.value.id) is not None:
-                    self.store_name(fn.value.id, s_wrap(s_whole(allargs), "*"))
+                    self.store_name(fn.value.id, s_wrap(s_whole(allargs), "*"), mutate=name != "write")
+                elif name in MUTATORS and name != "write" and isinstance(fn.value, ast.Subscript):
+                    base = fn.value
+                    while isinstance(base, ast.Subscript):
+                        base = base.value
+                    if isinstance(base, ast.Name) and self.scope_of(base.id) is not None:
+                        self.store_name(base.id, s_wrap(s_whole(allargs), "*"), mutate=True)
+                    elif isinstance(base, ast.Attribute):
+                        self.store_attr(base.attr, s_whole(allargs), mutate=True)
                 elif name in MUTATORS and name != "write" and isinstance(fn.value, ast.Attribute):
                     # (`self.x.write(data)` is output to an I/O object, not a store: what the peer sends back is
                     #  device output, the echo case the property exempts)
-                    self.store_attr(fn.value.attr, s_whole(allargs))
+                    self.store_attr(fn.value.attr, s_whole(allargs), mutate=True)
                 out = s_join(out, self.external(nodes))
             return out
 
@@ -1032,6 +1163,8 @@ class Walker:
                     self.store_attr(fields[i], sh)
             for k, sh in kw_sh.items():
                 self.store_attr(k, sh)
+                if (getattr(self, "_arg_alias", None) or ([], {}, 1, 1))[1].get(k, True) and not self.ix.is_handle_attr(k):
+                    self.link(s_flat(sh), [f"a:{k}"])
             if dstar is not None:
                 for fld in fields:
                     sub = s_sub(dstar, fld)
